@@ -251,7 +251,7 @@ class CropRun:
         return Crop(fn=fn, name=self.name, parent_dir=self.parent, **kw)
 
     def result_ids(self):
-        fs = glob.glob(os.path.join(self.location(), "results", "xyz-result-*.jbdmp"))
+        fs = glob.glob(os.path.join(glob.escape(self.location()), "results", "xyz-result-*.jbdmp"))
         return sorted(int(re.findall(r"xyz-result-(\d+)\.jbdmp$", f)[0]) for f in fs)
 
     def listing(self):
